@@ -424,6 +424,70 @@ pub fn normalise_record_patterns(e: &Expr) -> Expr {
 
 /// AST-level mutation (G-mut on the harness AST): most results are ill-typed; the ones the real
 /// checker still accepts are the interesting population for the soundness check.
+/// Arity and shape mutations of a pattern: surplus / missing sub-patterns of constructor and
+/// tuple patterns, unknown / dropped record fields, a literal of another type
+pub fn mutate_pat(p: &Pat, rng: &mut crate::rng::Rng) -> Pat {
+    let extra = |rng: &mut crate::rng::Rng| match rng.below(4) {
+        0 => Pat::Wild,
+        1 => Pat::Lit(Lit::Int(2)),
+        2 => Pat::Var("unused_q".into()),
+        _ => Pat::Lit(Lit::Str("q".into())),
+    };
+    match p {
+        Pat::Ctor(n, ps) => {
+            // recurse into a sub-pattern sometimes
+            if !ps.is_empty() && rng.chance(1, 3) {
+                let mut ps2 = ps.clone();
+                let k = rng.below(ps2.len());
+                ps2[k] = mutate_pat(&ps2[k], rng);
+                return Pat::Ctor(n.clone(), ps2);
+            }
+            let mut ps2 = ps.clone();
+            match rng.below(4) {
+                0 if !ps2.is_empty() => {
+                    ps2.pop();
+                }
+                1 => {
+                    ps2.push(extra(rng));
+                    ps2.push(extra(rng));
+                }
+                _ => ps2.push(extra(rng)),
+            }
+            Pat::Ctor(n.clone(), ps2)
+        }
+        Pat::Tuple(ps) => {
+            let mut ps2 = ps.clone();
+            if rng.chance(1, 2) && ps2.len() > 1 {
+                ps2.pop();
+            } else {
+                ps2.push(extra(rng));
+            }
+            Pat::Tuple(ps2)
+        }
+        Pat::Record(fs) => {
+            let mut fs2 = fs.clone();
+            if rng.chance(1, 2) && !fs2.is_empty() {
+                let k = rng.below(fs2.len());
+                match &fs2[k].1 {
+                    Some(sub) => fs2[k].1 = Some(mutate_pat(sub, rng)),
+                    None => {
+                        fs2.remove(k);
+                    }
+                }
+            } else {
+                fs2.push(("zz_unknown".into(), Some(extra(rng))));
+            }
+            Pat::Record(fs2)
+        }
+        Pat::As(n, sub) => Pat::As(n.clone(), Box::new(mutate_pat(sub, rng))),
+        Pat::Wild | Pat::Var(_) | Pat::Lit(_) => match rng.below(3) {
+            0 => Pat::Ctor("Some".into(), vec![p.clone(), extra(rng)]),
+            1 => Pat::Tuple(vec![p.clone(), extra(rng)]),
+            _ => extra(rng),
+        },
+    }
+}
+
 pub fn mutate_ast(e: &Expr, rng: &mut crate::rng::Rng) -> (Expr, &'static str) {
     let n = count(e);
     let i = rng.below(n);
@@ -436,10 +500,33 @@ pub fn mutate_ast(e: &Expr, rng: &mut crate::rng::Rng) -> (Expr, &'static str) {
             }
         }
     });
-    match rng.below(8) {
+    match rng.below(10) {
         0 | 1 => {
             let j = rng.below(n);
             (replace(e, i, &get(e, j).clone()), "replace-by-other-subterm")
+        }
+        8 | 9 => {
+            // mutate a pattern of the nearest match / let at or below the chosen node
+            let mut target: Option<usize> = None;
+            for k in (i..n).chain(0..i) {
+                if matches!(get(e, k), Expr::Match(..) | Expr::Let(..)) {
+                    target = Some(k);
+                    break;
+                }
+            }
+            match target.map(|k| (k, get(e, k).clone())) {
+                Some((k, Expr::Match(s, alts))) if !alts.is_empty() => {
+                    let mut a = alts.clone();
+                    let x = rng.below(a.len());
+                    a[x].0 = mutate_pat(&a[x].0, rng);
+                    (replace(e, k, &Expr::Match(s, a)), "mutate-pattern")
+                }
+                Some((k, Expr::Let(p, params, rhs, body))) if params.is_empty() => {
+                    let p2 = mutate_pat(&p, rng);
+                    (replace(e, k, &Expr::Let(p2, params, rhs, body)), "mutate-pattern")
+                }
+                _ => (e.clone(), "none"),
+            }
         }
         2 => {
             let lits = [super::ast::int(3), Expr::Lit(Lit::Str("m".into())), Expr::Lit(Lit::Float(2.5)), Expr::Unit, super::ast::var("True"), Expr::Lit(Lit::Char('c')), Expr::Array(vec![])];
@@ -464,6 +551,14 @@ pub fn mutate_ast(e: &Expr, rng: &mut crate::rng::Rng) -> (Expr, &'static str) {
                 (replace(e, i, &Expr::BinOp(rng.pick(&ops).to_string(), l.clone(), r.clone())), "change-operator")
             }
             Expr::Proj(b_, _) => (replace(e, i, &Expr::Proj(b_.clone(), rng.pick(&["a", "b", "x", "_0", "_1", "go"]).to_string())), "change-field"),
+            // same fields and values, other order: a different (order-significant) record type
+            Expr::Record(fs, base) if fs.len() >= 2 => {
+                let mut f2 = fs.clone();
+                let a = rng.below(f2.len());
+                let b_ = (a + 1 + rng.below(f2.len() - 1)) % f2.len();
+                f2.swap(a, b_);
+                (replace(e, i, &Expr::Record(f2, base.clone())), "permute-record-fields")
+            }
             _ => (e.clone(), "none"),
         },
         6 => match &node {
